@@ -24,6 +24,9 @@ D = 5.1e-5
 
 def cases(tier, inst):
     usets = P.utility_sets(inst, 4, "large")
+    for ms in P.crowds(inst, 4, dts=(0, 1)):        # problems of realistic size (10-40 streams)
+        for ui in (0, 4):
+            yield {"streams": ms, "uset": ui, "inst": list(inst)}
     if tier == "quick":
         for ms in P.stream_multisets(inst, 4, 2, cps=(1, 2), dts=(0, 1)):
             for ui in (0, 4):
@@ -214,7 +217,7 @@ SUBCHECKS = {
         rule="case = stream multiset x utility set {none, inside-range levels}; non-trivial = both kinds of stream and at least one row that is not a stream bound "
              "(inserted by projection, pocket cutting or a utility level); outcomes = distinct cold-composite columns",
         cases=cases, run=run,
-        bound=lambda t: "multisets <=2 (K=4, dt {0,d/2}) x 2 utility sets + 3-multisets (dt=d/2, no latent) + contributions equal to the lattice step + zero-crossing lattice" if t == "quick"
+        bound=lambda t: "multisets <=2 (K=4, dt {0,d/2}) x 2 utility sets + 3-multisets (dt=d/2, no latent) + contributions equal to the lattice step + zero-crossing lattice + 7 problems of 10-40 streams" if t == "quick"
         else "multisets <=3 (K=4) + multisets <=2 (K=5, 3 contributions) with gliding inside-range utilities",
     ),
     "inserted_rows": SubCheck(
